@@ -118,6 +118,11 @@ use std::fmt::Display;
 pub use num_complex;
 pub use num_traits;
 
+// Verification hooks: off by default, see src/verif_hooks.rs
+#[cfg(feature = "verif_hooks")]
+#[macro_use]
+pub mod verif_hooks;
+
 #[macro_use]
 mod common;
 
